@@ -175,8 +175,22 @@ def compile_units(run, units, deps, profile, vmon, tag, extra_head="", nshards=N
             log("[corpus] %s: generated enum is invalid Rust even without strum (%s) - dropped, not a verdict" % (u.name, diag_summary(cb)[:200]))
         return cb.ok
 
-    single_res = core.pmap(build_single, singles)
+    # isolate in chunks; once enough corpus enums are confirmed as rejected on their own the verdict is settled and the
+    # remaining suspects are dropped without compiling each of them alone
+    single_res = []
     bad_names = set()
+    for ci in range(0, len(singles), 48):
+        chunk = singles[ci:ci + 48]
+        res = core.pmap(build_single, chunk)
+        single_res += res
+        if sum(1 for _u, c, _s in single_res if not c.ok) >= 8 and ci + 48 < len(singles):
+            rest_n = len(singles) - (ci + 48)
+            run.count("compile/isolation-cut-short", rest_n)
+            log("[compile] %d suspects fail on their own; %d further suspects are dropped without isolating them" % (
+                sum(1 for _u, c, _s in single_res if not c.ok), rest_n))
+            for u in singles[ci + 48:]:
+                bad_names.add(u.name)
+            break
     for u, c, src in single_res:
         if not c.ok:
             bad_names.add(u.name)
@@ -206,6 +220,13 @@ def compile_units(run, units, deps, profile, vmon, tag, extra_head="", nshards=N
         else:
             second.append((us, c))
     # line attribution missed some failing units: fall back to compiling every remaining unit of those shards alone
+    # (not when enough corpus enums have already been confirmed as rejected on their own: the verdict is settled, and isolating
+    # thousands of units one by one against a tree that breaks them all only costs time)
+    if second and run.counters.get("compile/corpus-enum-rejected", 0) >= 8:
+        run.count("compile/isolation-cut-short", sum(len(us) for us, _ in second))
+        log("[compile] %d corpus enums already rejected on their own; %d further units of failing shards are not isolated" % (
+            run.counters.get("compile/corpus-enum-rejected", 0), sum(len(us) for us, _ in second)))
+        second = []
     for us, c0 in second:
         res2 = core.pmap(build_single, us)
         ok_units = []
